@@ -459,6 +459,15 @@ def path_link_direction_cases():
                     return "%s / %s: the path does not use the stored link" % (link, pl)
                 if lk[0].orient != form:
                     return "%s / %s: direction %s, expected %s" % (link, pl, lk[0].orient, form)
+    # the path is read BEFORE the link (a placeholder link is replaced), exactly one of the two overlaps unspecified
+    for pov, lov in (("*", "2M1I"), ("2M1I", "*")):
+        for form, link in (("+", "L\tx\t+\ty\t+\t%s" % lov), ("-", "L\ty\t-\tx\t-\t%s" % (compl(lov)))):
+            g = gfapy.Gfa(["S\tx\t*", "S\ty\t*", "P\tp\tx+,y+\t%s" % pov, link], vlevel=1)
+            lk = g.line("p").links
+            if len(lk) != 1 or lk[0].line is not g.dovetails[0] or len(g.dovetails) != 1:
+                return "P x+,y+ %s then %s: the path does not use the stored link" % (pov, link)
+            if lk[0].orient != form:
+                return "P x+,y+ %s then %s: direction %s, expected %s" % (pov, link, lk[0].orient, form)
     g = gfapy.Gfa(["S\ta\t*", "S\tb\t*", "S\tc\t*", "L\tb\t-\ta\t-\t2M", "L\tb\t+\tc\t+\t3M", "P\tp\ta+,b+,c+\t2M,3M"], vlevel=1)
     got = [x.orient for x in g.line("p").links]
     if got != ["-", "+"]:
